@@ -97,6 +97,13 @@ def run(name, pids, scratch=False):
             results[pid] = {'exit': rc, 'violation': vio[0] if vio else None, 'wall_s': round(time.time() - t0, 1),
                             'found_failing_input': bool(vio) and 'no-failing-input-found' not in vio[0]}
             print(name, pid, results[pid])
+            # robustness of the detection against the choice of the PRNG seed (SEEDTEST_SEEDS="1 2 3")
+            for sd in os.environ.get('SEEDTEST_SEEDS', '').split():
+                rc2, out2 = sh('./check %s --tier quick --no-proof --seed %s' % (pid, sd), cwd=VERIF, env={'VERIF_REPO': repo})
+                v2 = [l for l in out2.split('\n') if l.startswith('VIOLATION')]
+                meta.setdefault('other_seeds', {}).setdefault(pid, {})[sd] = \
+                    'input' if (v2 and 'no-failing-input-found' not in v2[0]) else ('no-input' if v2 else 'missed')
+                print(name, pid, 'seed', sd, meta['other_seeds'][pid][sd])
     finally:
         if scratch:
             sh('git -C /repo worktree remove --force %s' % repo)
